@@ -78,12 +78,23 @@ class SqlFluffLineageAnalyzer(LineageAnalyzer):
                     )
 
     def _list_specific_statement_segment(self, sql: str):
-        parsed = Linter(config=self._sqlfluff_config).parse_string(sql)
+        try:
+            parsed = Linter(config=self._sqlfluff_config).parse_string(sql)
+        except RuntimeError as e:
+            # sqlfluff gives up with internal error instead of violation when it hits recursion limit etc.
+            raise InvalidSyntaxException(
+                f"This SQL statement is unparsable, please check potential syntax error for SQL:\n"
+                f"{sql}\n"
+                f"{type(e).__name__}: {e}"
+            ) from e
         violations = [
             str(e)
             for e in parsed.violations
             if isinstance(e, (SQLLexError, SQLParseError))
         ]
+        if not violations and not parsed.parsed_variants:
+            # nothing is parsed at all, e.g. templater fails on unbalanced "{{" even inside string literal
+            violations = [str(e) for e in parsed.violations]
         if violations:
             violation_msg = "\n".join(violations)
             raise InvalidSyntaxException(
